@@ -118,7 +118,7 @@ pub fn hostile_doc(rng: &mut Rng, env: &WorkerEnv) -> (String, Vec<u8>) {
         }
         4 => {
             // lazy variable chain resolved inside an expression: v_k = "$v_{k-1}"
-            let n = d.min(3000);
+            let n = d.min(if env.tier == crate::core::Tier::Quick { 1000 } else { 3000 });
             let mut s = String::from("<svg>");
             for k in (1..=n).rev() {
                 s.push_str(&format!("<var v{k}=\"$v{}\"/>", k - 1));
@@ -274,7 +274,10 @@ pub fn hostile_doc(rng: &mut Rng, env: &WorkerEnv) -> (String, Vec<u8>) {
                 3 => "<svg><loop count=\"-1\"><rect wh=\"1\"/></loop></svg>".to_string(),
                 4 => "<svg><loop count=\"3\" loop-var=\"i\" step=\"0\"><rect wh=\"{{1/$i}}\"/></loop></svg>".to_string(),
                 5 => "<svg><var v=\"ab\"/><loop count=\"40\"><var v=\"${v}${v}\"/></loop><rect wh=\"1\" text=\"$v\"/></svg>".to_string(),
-                6 => "<svg><loop count=\"30\"><loop count=\"30\"><loop count=\"30\"><rect wh=\"1\"/></loop></loop></loop></svg>".to_string(),
+                6 => {
+                    let k = if env.tier == crate::core::Tier::Quick { 16 } else { 30 };
+                    format!("<svg><loop count=\"{k}\"><loop count=\"{k}\"><loop count=\"{k}\"><rect wh=\"1\"/></loop></loop></loop></svg>")
+                }
                 7 => "<svg><for data=\"\" var=\"x\"><rect wh=\"1\"/></for><for var=\"x\"/><for data=\"1,2\"/></svg>".to_string(),
                 8 => "<svg><loop/><loop count=\"\"/><if/><if test=\"\"/><var/><reuse/><use/><config/><specs/><defaults/></svg>".to_string(),
                 _ => "<svg><loop count=\"2\" loop-var=\"\" start=\"x\" step=\"y\"><rect wh=\"1\"/></loop></svg>".to_string(),
@@ -325,7 +328,7 @@ pub fn hostile_doc(rng: &mut Rng, env: &WorkerEnv) -> (String, Vec<u8>) {
         }
         26 => {
             // many siblings, flat: long but cheap
-            let n = d.min(20000);
+            let n = d.min(if env.tier == crate::core::Tier::Quick { 4000 } else { 20000 });
             let mut s = String::from("<svg>");
             for i in 0..n {
                 s.push_str(&format!("<rect xy=\"{} 0\" wh=\"1\"/>", i));
@@ -335,7 +338,7 @@ pub fn hostile_doc(rng: &mut Rng, env: &WorkerEnv) -> (String, Vec<u8>) {
         }
         27 => {
             // long forward-reference chain: element k refers to element k+1
-            let n = d.min(300);
+            let n = d.min(if env.tier == crate::core::Tier::Quick { 120 } else { 300 });
             let mut s = String::from("<svg>");
             for i in 0..n {
                 s.push_str(&format!("<rect id=\"c{i}\" xy=\"#c{}|h\" wh=\"1\"/>", i + 1));
